@@ -221,7 +221,7 @@ fn sig_issue(s: &str) -> String {
 
 pub fn run(cfg: &Cfg, rep: &mut Report) {
     // ---------------- channel lists
-    run_cases(cfg, "channel", cfg.n(640, 4_800_000, 96_000_000), rep, |rng, ctx| {
+    run_cases(cfg, "channel", cfg.n(640, 4_800_000, 288_000_000), rep, |rng, ctx| {
         bump(ctx, 1);
         let allow_path = rng.bool();
         let mx = if rng.chance(1, 100) && !ctx.cfg.tiny { 400 } else if rng.chance(1, 10) { 21 } else { 5 };
@@ -355,7 +355,7 @@ pub fn run(cfg: &Cfg, rep: &mut Report) {
     });
 
     // ---------------- numeric lists
-    run_cases(cfg, "numeric", cfg.n(640, 4_800_000, 96_000_000), rep, |rng, ctx| {
+    run_cases(cfg, "numeric", cfg.n(640, 4_800_000, 384_000_000), rep, |rng, ctx| {
         bump(ctx, 1);
         let mx = if rng.chance(1, 100) && !ctx.cfg.tiny { 400 } else if rng.chance(1, 10) { 21 } else { 5 };
         let n = rng.usize(mx);
